@@ -3,6 +3,7 @@ package main
 import (
 	"fmt"
 	"go/ast"
+	"go/constant"
 	"go/token"
 	"go/types"
 	"strings"
@@ -37,6 +38,10 @@ var g2lStd = map[string]stdFn{
 	"bits.TrailingZeros64":   {"trailingZeros64", false},
 	"bits.Len64":             {"len64", false},
 	"strconv.Itoa":           {"itoa", false},
+	"strconv.Atoi":           {"atoi", false},
+	"strings.Split":          {"split", false},
+	"strings.Join":           {"join", false},
+	"strings.ToLower":        {"toLowerASCIIorUnicode", false},
 	"utf8.RuneError":         {"(65533 : Int)", false},
 	"utf8.ValidString":       {"validUtf8", false},
 	"utf8.DecodeRuneInString": {"decodeRune", false},
@@ -105,6 +110,9 @@ func (f *g2lFn) call(b *binds, e *ast.CallExpr) string {
 			return "(" + base + " ++ [" + strings.Join(parts, ", ") + "])"
 		case "make":
 			t := f.typeOf(e)
+			if _, ok := t.Underlying().(*types.Map); ok {
+				return "([] : " + f.leanType(t, e) + ")"
+			}
 			sl, ok := t.Underlying().(*types.Slice)
 			if !ok || len(e.Args) < 2 {
 				f.bad(e, "make of %s", t)
@@ -140,6 +148,9 @@ func (f *g2lFn) call(b *binds, e *ast.CallExpr) string {
 				rt = p.Elem()
 			}
 			if n, ok := rt.(*types.Named); ok {
+				if _, ok := f.u.ifaceStructs[n.Obj().Name()]; ok {
+					return strings.TrimSpace("((" + f.expr(b, sel.X) + ")." + leanIdent(sel.Sel.Name) + " " + strings.Join(f.args(b, e), " ") + ")")
+				}
 				if _, ok := f.u.ifaces[n.Obj().Name()]; ok {
 					return "(" + f.expr(b, sel.X) + " " + strings.Join(f.args(b, e), " ") + ")"
 				}
@@ -176,6 +187,9 @@ func (f *g2lFn) call(b *binds, e *ast.CallExpr) string {
 			return f.bindM(b, t)
 		}
 		return t
+	}
+	if pkg == "fmt" && name == "Sprintf" {
+		return f.sprintf(b, e)
 	}
 	// error constructors
 	if (pkg == "fmt" && name == "Errorf") || (pkg == "errors" && name == "New") {
@@ -253,6 +267,11 @@ func (f *g2lFn) varName(o types.Object) string {
 		return leanIdent(o.Name())
 	}
 	base := leanIdent(o.Name())
+	for _, tv := range f.u.absTypes {
+		if base == tv {
+			base += "_"
+		}
+	}
 	n := base
 	for i := 1; f.usedName[n]; i++ {
 		n = fmt.Sprintf("%s_%d", base, i)
@@ -263,6 +282,14 @@ func (f *g2lFn) varName(o types.Object) string {
 }
 
 func (f *g2lFn) retTerm(vals string) []string {
+	if f.effType != "" {
+		vals = "(" + vals + ", effLog)"
+	}
+	return f.retRaw(vals)
+}
+
+// retRaw returns a complete result value (effect log included)
+func (f *g2lFn) retRaw(vals string) []string {
 	if f.inLoop != nil {
 		if !f.inLoop.hasRet {
 			die("%s: internal: return inside a loop without a return channel", f.goName)
@@ -409,6 +436,11 @@ func (f *g2lFn) stmts(list []ast.Stmt, k kont) []string {
 				return []string{"throw Err.panic"}
 			}
 		}
+		if c, ok := s.X.(*ast.CallExpr); ok {
+			if l, ok := f.exprStmtCall(c); ok {
+				return append(l, rest()...)
+			}
+		}
 		f.bad(s, "expression statement %s", show(s.X))
 	case *ast.BlockStmt:
 		return f.stmts(s.List, rest)
@@ -524,6 +556,13 @@ func (f *g2lFn) assignedOuter(nodes []ast.Node, before token.Pos) []*types.Var {
 				}
 			case *ast.IncDecStmt:
 				add(n.X)
+			case *ast.CallExpr:
+				// copy(dst[...], src) assigns to dst
+				if id, ok := n.Fun.(*ast.Ident); ok && id.Name == "copy" && len(n.Args) == 2 {
+					if se, ok := n.Args[0].(*ast.SliceExpr); ok {
+						add(se.X)
+					}
+				}
 			case *ast.RangeStmt:
 				if n.Tok == token.ASSIGN {
 					if n.Key != nil {
@@ -690,6 +729,10 @@ func (f *g2lFn) assignOne(lines *[]string, lhs ast.Expr, term string, lt types.T
 		var b binds
 		i := f.expr(&b, l.Index)
 		*lines = append(*lines, b.lines...)
+		if _, ok := f.typeOf(l.X).Underlying().(*types.Map); ok {
+			*lines = append(*lines, fmt.Sprintf("let %s := mapSet %s %s %s", f.name(base), f.name(base), i, term))
+			return
+		}
 		f.pure = false
 		op := "setIdxL"
 		if isByteSlice(f.typeOf(l.X)) {
@@ -813,4 +856,121 @@ func (f *g2lFn) simple(s ast.Stmt) []string {
 	}
 	f.bad(s, "statement %T", s)
 	return nil
+}
+
+// sprintf translates fmt.Sprintf with a literal format over %d, %0Nd, %s and %v (of strings and integers)
+func (f *g2lFn) sprintf(b *binds, e *ast.CallExpr) string {
+	tv, ok := f.p.info.Types[e.Args[0]]
+	if !ok || tv.Value == nil {
+		f.bad(e, "Sprintf with a non-literal format")
+	}
+	format := constant.StringVal(tv.Value)
+	parts := []string{}
+	lit := ""
+	flush := func() {
+		if lit != "" {
+			parts = append(parts, bytesLit(lit))
+			lit = ""
+		}
+	}
+	arg := 1
+	for i := 0; i < len(format); i++ {
+		c := format[i]
+		if c != '%' {
+			lit += string(c)
+			continue
+		}
+		i++
+		if i < len(format) && format[i] == '%' {
+			lit += "%"
+			continue
+		}
+		width := 0
+		zero := false
+		if i < len(format) && format[i] == '0' {
+			zero = true
+			i++
+		}
+		for i < len(format) && format[i] >= '0' && format[i] <= '9' {
+			width = width*10 + int(format[i]-'0')
+			i++
+		}
+		if i >= len(format) || arg >= len(e.Args) {
+			f.bad(e, "Sprintf format %q", format)
+		}
+		a := e.Args[arg]
+		arg++
+		at := f.typeOf(a)
+		x := f.expr(b, a)
+		flush()
+		switch verb := format[i]; {
+		case (verb == 'd' || verb == 'v') && intKindOf(at) != notInt:
+			if width > 0 && zero {
+				parts = append(parts, fmt.Sprintf("(padDec %d %s)", width, x))
+			} else if width == 0 {
+				parts = append(parts, "(itoa "+x+")")
+			} else {
+				f.bad(e, "Sprintf width without zero padding")
+			}
+		case (verb == 's' || verb == 'v') && isBytesLike(at) && width == 0:
+			parts = append(parts, x)
+		default:
+			f.bad(e, "Sprintf verb %%%c of %s", verb, at)
+		}
+	}
+	flush()
+	if len(parts) == 0 {
+		return "([] : Bytes)"
+	}
+	return "(" + strings.Join(parts, " ++ ") + ")"
+}
+
+// exprStmtCall: calls used as statements: copy(dst, src) and interface methods configured as effects
+func (f *g2lFn) exprStmtCall(c *ast.CallExpr) ([]string, bool) {
+	var b binds
+	if id, ok := c.Fun.(*ast.Ident); ok && id.Name == "copy" && len(c.Args) == 2 {
+		se, ok := c.Args[0].(*ast.SliceExpr)
+		if !ok {
+			return nil, false
+		}
+		base, ok := se.X.(*ast.Ident)
+		if !ok {
+			return nil, false
+		}
+		src := f.expr(&b, c.Args[1])
+		bt := f.typeOf(se.X)
+		if n, ok := bt.(*types.Named); ok {
+			if _, ok := f.u.absTypes[n.Obj().Name()]; ok && se.Low == nil && se.High == nil {
+				p, ok := f.u.absFuncs["copy->"+n.Obj().Name()]
+				if !ok {
+					return nil, false
+				}
+				f.useAbs(p)
+				return append(b.lines, fmt.Sprintf("let %s := %s %s", f.name(base), p, src)), true
+			}
+		}
+		if isByteSlice(bt) && se.High == nil {
+			lo := "(0 : Int)"
+			if se.Low != nil {
+				lo = f.expr(&b, se.Low)
+			}
+			f.pure = false
+			return append(b.lines, fmt.Sprintf("let %s ← copyAt %s %s %s", f.name(base), f.name(base), lo, src)), true
+		}
+		return nil, false
+	}
+	if sel, ok := c.Fun.(*ast.SelectorExpr); ok {
+		if _, ok := f.u.effects[sel.Sel.Name]; ok {
+			if f.inLoop != nil {
+				f.bad(c, "effect call inside a loop")
+			}
+			if f.effType == "" {
+				f.bad(c, "effect call in a function not listed in effFns")
+			}
+			f.pure = false
+			args := f.args(&b, c)
+			return append(b.lines, fmt.Sprintf("let effLog := effLog ++ [%s]", tuple(args))), true
+		}
+	}
+	return nil, false
 }
